@@ -14,6 +14,7 @@
 package main
 
 import (
+	_ "embed"
 	"fmt"
 	"math"
 	"math/rand"
@@ -68,7 +69,13 @@ type rect [4]float64 // minLat minLon maxLat maxLon
 
 func (a rect) String() string { return fmt.Sprintf("[%v %v %v %v]", a[0], a[1], a[2], a[3]) }
 
+// dist: the distance NEARBY reports for an object whose rectangle is a (item == true)
 func dist(q [2]float64, a rect) float64 {
+	return verifapi.ItemDist(q[0], q[1], a[0], a[1], a[2], a[3])
+}
+
+// nodeKey: the queue key of a node rectangle (item == false: clamped, with the margin)
+func nodeKey(q [2]float64, a rect) float64 {
 	return verifapi.NearbyDist(q[0], q[1], a[0], a[1], a[2], a[3])
 }
 
@@ -101,35 +108,79 @@ func sampleNested(rng *rand.Rand) (q [2]float64, in, out rect, p [2]float64) {
 	return
 }
 
-// noise: the two values agree to within floating-point evaluation error of two different
-// trigonometric formulas for the same quantity (relative 1e-8, i.e. 0.2 m at the antipode)
+// noise: the two values agree to within floating-point evaluation error (relative 1e-8).  Used
+// only where a radius is compared with a client-side distance: an object that close to the radius
+// without being equal to it is left out of the model comparison of the radius cut.
 func noise(a, b float64) bool { return math.Abs(a-b) <= 1e-8*math.Max(math.Abs(a), math.Abs(b))+1e-9 }
 
 func lbFailure(r *hx.Result, what string, q [2]float64, outer, inner rect, ko, ki float64) {
-	sig := "knn-lb-not-monotone"
-	if noise(ko, ki) {
-		sig = "knn-lb-rounding-noise"
-	}
-	r.Fail(hx.Failure{Kind: "oracle", Signature: sig,
-		What: fmt.Sprintf("%s: from (%v, %v) the key of %v is %v but the contained %v has %v (difference %g m): the lower bound is not monotone under containment", what, q[0], q[1], outer, ko, inner, ki, ko-ki),
+	r.Fail(hx.Failure{Kind: "oracle", Signature: "knn-lb-not-monotone",
+		What: fmt.Sprintf("%s: from (%v, %v) the key of the node rectangle %v is %v but an object with the contained rectangle %v is at %v (difference %g m, relative %g): Hlb fails", what, q[0], q[1], outer, ko, inner, ki, ko-ki, (ko-ki)/ko),
 		Case: map[string]interface{}{"query": q, "outer": outer, "inner": inner}, Impl: ko, Model: ki})
 }
 
+// sampleHlb: Hlb as the theorems use it — the key of a node rectangle never exceeds the distance of
+// an object whose rectangle it contains — on random nested rectangles, exactly (no tolerance: the
+// traversal compares floats exactly).  Rectangle-against-rectangle monotonicity of the keys is not
+// needed by the proof (KnnProofs.knn_order_spec only uses node-against-item) and is not checked.
 func sampleHlb(r *hx.Result, rng *rand.Rand, n int) {
 	for i := 0; i < n; i++ {
 		q, in, out, p := sampleNested(rng)
-		ko, ki := dist(q, out), dist(q, in)
-		dp := dist(q, rect{p[0], p[1], p[0], p[1]})
-		r.Count(fmt.Sprintf("hlb/%v/%v/%v", q, in, out), ko > 0 && ko < ki)
+		if i%4 == 0 { // near the antipode of the inner rectangle: the haversine is least accurate there
+			lo := in[1] + 180
+			if lo > 180 {
+				lo -= 360
+			}
+			q = [2]float64{clampLat(-in[0] + rng.NormFloat64()*[]float64{1e-9, 1e-6, 1e-3, 1}[rng.Intn(4)]), clampLon(lo + rng.NormFloat64()*[]float64{1e-9, 1e-6, 1e-3, 1}[rng.Intn(4)])}
+		}
+		pr := rect{p[0], p[1], p[0], p[1]}
+		ko, ki := nodeKey(q, out), nodeKey(q, in)
+		di, dp := dist(q, in), dist(q, pr)
+		r.Count(fmt.Sprintf("hlb/%v/%v/%v", q, in, out), ko > 0 && ko < di)
 		r.Dist("hlb-sample")
-		if ko > ki {
-			lbFailure(r, "nested rectangles", q, out, in, ko, ki)
+		if ko > di {
+			lbFailure(r, "nested rectangles", q, out, in, ko, di)
+		}
+		if ko > dp {
+			lbFailure(r, "rectangle and a point inside it", q, out, pr, ko, dp)
 		}
 		if ki > dp {
-			lbFailure(r, "rectangle and a point inside it", q, in, rect{p[0], p[1], p[0], p[1]}, ki, dp)
+			lbFailure(r, "rectangle and a point inside it", q, in, pr, ki, dp)
 		}
-		if ko < 0 && !noise(ko, 0) {
-			r.Fail(hx.Failure{Kind: "oracle", Signature: "knn-negative-distance", What: fmt.Sprintf("distance %v from (%v,%v) to %v is negative", ko, q[0], q[1], out), Case: map[string]interface{}{"query": q, "rect": out}})
+		if ko < 0 || di < 0 {
+			r.Fail(hx.Failure{Kind: "oracle", Signature: "knn-negative-distance", What: fmt.Sprintf("negative distance from (%v,%v): key %v of %v, distance %v of %v", q[0], q[1], ko, out, di, in), Case: map[string]interface{}{"query": q, "rect": out}})
+		}
+	}
+}
+
+// sampleHeap: the hypothesis queue_ok for the transcribed binary heap (Model.Knn.heap_push /
+// heap_pop), sampled: pushing any key sequence and popping until empty must give the keys in
+// non-decreasing order, each once.  Many ties on purpose.
+func sampleHeap(r *hx.Result, drv *model.Driver, rng *rand.Rand, n int) {
+	for i := 0; i < n; i++ {
+		m := rng.Intn(40)
+		span := []int{2, 5, 50, 100000}[rng.Intn(4)]
+		keys := make([]int, m)
+		toks := []string{"heap"}
+		for j := range keys {
+			keys[j] = rng.Intn(span)
+			toks = append(toks, strconv.Itoa(keys[j]))
+		}
+		sort.Ints(keys)
+		want := "-"
+		if m > 0 {
+			ws := make([]string, m)
+			for j, k := range keys {
+				ws[j] = strconv.Itoa(k)
+			}
+			want = strings.Join(ws, ",")
+		}
+		got := drv.Ask(toks...)
+		r.Dist("heap-sample")
+		if got != want {
+			r.Fail(hx.Failure{Kind: "correspondence", Signature: "knn-heap-model-not-min-queue",
+				What: "Model.Knn.heap_push / heap_pop do not behave as a min-queue on this key sequence (hypothesis queue_ok of the C13 theorems for the heap discipline)",
+				Case: map[string]interface{}{"pushed": toks[1:]}, Impl: want, Model: got})
 		}
 	}
 }
@@ -307,11 +358,7 @@ func (x *run) checkOrder(ids []string, ds []float64) bool {
 	ok := true
 	for i := 0; i+1 < len(ds); i++ {
 		if ds[i+1] < ds[i] {
-			sig := "knn-order"
-			if noise(ds[i], ds[i+1]) {
-				sig = "knn-order-rounding-noise"
-			}
-			x.fail("oracle", sig, fmt.Sprintf("NEARBY from (%s, %s): %s at %v m is returned before %s at %v m", fl(x.q[0]), fl(x.q[1]), ids[i], ds[i], ids[i+1], ds[i+1]),
+			x.fail("oracle", "knn-order", fmt.Sprintf("NEARBY from (%s, %s): %s at %v m is returned before %s at %v m", fl(x.q[0]), fl(x.q[1]), ids[i], ds[i], ids[i+1], ds[i+1]),
 				map[string]interface{}{"position": i}, []interface{}{ids[i], ds[i], ids[i+1], ds[i+1]}, nil)
 			ok = false
 			break
@@ -355,36 +402,15 @@ func ranks(vals []float64) func(float64) string {
 	return func(v float64) string { return strconv.Itoa(1 + sort.SearchFloat64s(all, v)) }
 }
 
-// canonOrder prepares an implementation reply for the comparison with the model.  The model's
-// output is sorted by construction; the implementation's order can contain inversions at
-// rounding level (open known finding C13-rounding-noise, reported by checkOrder under
-// knn-order-rounding-noise).  If every inversion is of that kind (the two distances agree to
-// relative 1e-8, the rule of the known finding) the reply is stably sorted by distance so that
-// the known finding is not reported a second time as a model difference; an inversion beyond that
-// noise makes ok false: checkOrder has reported it as knn-order and the reply is not compared.
+// canonOrder: a reply is compared with the model (whose output is sorted by construction) only
+// if it has no inversion; an inversion is reported by checkOrder as knn-order.
 func canonOrder(ids []string, ds []float64) (cids []string, cds []float64, ok bool) {
 	for i := 0; i+1 < len(ds); i++ {
-		if ds[i+1] < ds[i] && !noise(ds[i], ds[i+1]) {
+		if ds[i+1] < ds[i] {
 			return nil, nil, false
 		}
 	}
-	idx := make([]int, len(ids))
-	for i := range idx {
-		idx[i] = i
-	}
-	sort.SliceStable(idx, func(a, b int) bool { return ds[idx[a]] < ds[idx[b]] })
-	// a stable sort of a sequence whose inversions are all noise-level moves an element only
-	// across neighbours it is noise-close to, provided the noisy runs are short; verify it:
-	for to, from := range idx {
-		if !noise(ds[from], ds[to]) {
-			return nil, nil, false
-		}
-	}
-	cids, cds = make([]string, len(ids)), make([]float64, len(ids))
-	for i, j := range idx {
-		cids[i], cds[i] = ids[j], ds[j]
-	}
-	return cids, cds, true
+	return ids, ds, true
 }
 
 // modelTrees: the items as a one-leaf tree and as a two-level tree whose node keys are the real
@@ -419,21 +445,13 @@ func (x *run) modelTrees(ids []string, extra []float64) (flat, two string, rank 
 			u = rect{math.Min(u[0], o[0]), math.Min(u[1], o[1]), math.Max(u[2], o[2]), math.Max(u[3], o[3])}
 		}
 		a, b, c, dd := verifapi.RtreeRect(u[0], u[1], u[2], u[3])
-		key := dist(x.q, rect{a, b, c, dd})
-		mkey := key
+		key := nodeKey(x.q, rect{a, b, c, dd})
 		for _, i := range order[s:e] {
 			x.r.Dist("hlb-group-item")
 			if key > d[i] {
 				lbFailure(x.r, "client-built node over real objects", x.q, rect{a, b, c, dd}, x.h.objs[ids[i]].r, key, d[i])
-				// reported above (rounding noise: known finding; beyond noise: knn-lb-not-monotone).
-				// At rounding level the model is fed the contained distance instead, so that the
-				// known finding is not reported again as a model difference.
-				if noise(key, d[i]) && d[i] < mkey {
-					mkey = d[i]
-				}
 			}
 		}
-		key = mkey
 		vals = append(vals, key)
 		groups = append(groups, group{key, order[s:e]})
 	}
@@ -510,8 +528,8 @@ func (x *run) checkModel(ids []string, ds []float64) {
 		implPos[i] = strconv.Itoa(pos[id])
 		implRank[i] = rank(ds[i])
 	}
-	for name, tree := range map[string]string{"one-leaf": flat, "two-level": two} {
-		mod := x.drv.Ask("knn " + tree)
+	for name, tree := range map[string]string{"one-leaf": "knn " + flat, "two-level": "knn " + two, "one-leaf-heap": "knnheap " + flat, "two-level-heap": "knnheap " + two} {
+		mod := x.drv.Ask(tree)
 		if !sameByDistance(implPos, implRank, mod) {
 			x.fail("correspondence", "knn-model-"+name, "the distance sequence / id sets per distance of NEARBY differ from Model.Knn.knn on the "+name+" tree over the same distances",
 				nil, map[string]interface{}{"positions": implPos, "ranks": implRank}, mod)
@@ -601,6 +619,36 @@ func nearby(c *srv.Conn, args ...string) (reply, error) {
 		}
 	}
 	return rp, nil
+}
+
+//go:embed noise65.txt
+var noise65 string
+
+// noiseCorpus: the 65 points (two of them 0.14 mm apart at the north pole) on which NEARBY from
+// (45, 90) printed 5003771.699005145 before 5003771.699005144 until node keys got their margin
+// (former known finding C13-rounding-noise; the same file is corpus/C13/rounding-noise-order-65pts.txt)
+func noiseCorpus() (*history, [2]float64) {
+	h := &history{objs: map[string]gobj{}}
+	var q [2]float64
+	n := 0
+	for _, line := range strings.Split(noise65, "\n") {
+		f := strings.Fields(line)
+		if len(f) != 3 {
+			continue
+		}
+		la, _ := strconv.ParseFloat(f[1], 64)
+		lo, _ := strconv.ParseFloat(f[2], 64)
+		if f[0] == "Q" {
+			q = [2]float64{la, lo}
+			continue
+		}
+		id := "p" + strconv.Itoa(n)
+		n++
+		o := gobj{kind: "point", r: rect{la, lo, la, lo}}
+		h.objs[id] = o
+		h.ops = append(h.ops, []string{"SET", "k", id, "POINT", f[1], f[2]})
+	}
+	return h, q
 }
 
 func polarCorpus() *history {
@@ -839,6 +887,13 @@ func blackBox(r *hx.Result, cfg hx.Config, drv *model.Driver, rng *rand.Rand, ro
 					c.MustDo(op...)
 				}
 				queries = [][2]float64{{52, 49}, {0, 0}, {-52, 49}, {89, -80}}
+			} else if round == 1 {
+				var q [2]float64
+				h, q = noiseCorpus()
+				for _, op := range h.ops {
+					c.MustDo(op...)
+				}
+				queries = [][2]float64{q, {-45, -90}, {90, 0}}
 			} else {
 				n := []int{0, 1, 5, 40, 90, 200, 420}[rng.Intn(7)]
 				h = randHistory(rng, n, func(op []string, id string, o *gobj) {
@@ -866,10 +921,10 @@ func blackBox(r *hx.Result, cfg hx.Config, drv *model.Driver, rng *rand.Rand, ro
 func runC13(r *hx.Result, cfg hx.Config) {
 	r.Rule = "one case = (dataset reached by a random history of SET/overwrite/DEL over points, rectangles, polygons, linestrings and strings; query point; radius / LIMIT): non-trivial = distinct case whose unlimited reply holds at least two different distances. Plus samples of the lower-bound hypothesis on nested rectangles (non-trivial = 0 < key(outer) < key(inner))."
 	r.Assumptions = []string{
-		"Hlb (trusted, sampled): the key of a node rectangle does not exceed the distance of any object whose rectangle it contains (geodesic point-to-rectangle bound, float64 trigonometry); violations within relative 1e-8 are classified as rounding noise",
+		"Hlb (trusted, sampled exactly, no tolerance): the key of a node rectangle (clamped to the valid range, scaled by 1-1e-7) does not exceed the distance of any object whose rectangle it contains (geodesic point-to-rectangle bound, float64 trigonometry)",
 		"the R-tree keeps every object under nodes whose rectangles contain the object's rectangle (tidwall/rtree, not verified); the harness checks Hlb on the node rectangles the real tree evaluates",
 		"client-side distances are computed with the server's own distance function through verifapi (collection.geodeticDistAlgo); point objects are cross-checked against geo.DistanceTo",
-		"the model's priority queue abstracts the library's binary heap: order inside a group of equal distances is not compared",
+		"the theorems hold for every queue discipline satisfying queue_ok (proved for the list queue; for the transcribed binary heap it is sampled: knn-heap-model-not-min-queue); the real R-tree shape is not observable, so order inside a group of equal distances is not compared",
 	}
 	rng := rand.New(rand.NewSource(cfg.Seed))
 	drv, err := model.Start("knn")
@@ -885,6 +940,7 @@ func runC13(r *hx.Result, cfg hx.Config) {
 		hlb, ip, bb = 2000000, 400, 30
 	}
 	sampleHlb(r, rng, hlb)
+	sampleHeap(r, drv, rng, 3000)
 	inProcess(r, drv, rng, ip)
 	blackBox(r, cfg, drv, rng, bb)
 	r.TracesImpl = r.Distribution["blackbox-query"] + r.Distribution["in-process-query"]
